@@ -71,7 +71,8 @@ Theorem C19_guard_nonvacuous :
    gen_fields demo_san (rev demo_props) = gen_fields demo_san demo_props) /\
   (guard_acyclic graph_F02a = false /\ guard_no_allof_cycle graph_F02a = true /\
    guard_acyclic graph_F02c = false /\ guard_no_allof_cycle graph_F02c = false /\
-   guard_acyclic graph_dag = true /\ guard_no_allof_cycle graph_dag = true).
+   guard_acyclic graph_dag = true /\ guard_no_allof_cycle graph_dag = true /\
+   guard_acyclic graph_selfref = true /\ guard_no_allof_cycle graph_selfref = true).
 Proof.
   exact (conj guard_collide_nonvacuous (conj prop_order_nonvacuous graph_guards_examples)).
 Qed.
